@@ -230,7 +230,7 @@ def scn_start(T, case):
     dumped = {"dumped": "configuration"}
     try:
         # the object is made by its real constructor (whatever state it sets up is the state start() runs in, every time it runs)
-        opt = cls(types.SimpleNamespace(model_dump=lambda round_trip=False: dumped, optimizer=types.SimpleNamespace(method="external/slsqp")), callback)
+        opt = cls(types.SimpleNamespace(model_dump=lambda round_trip=False: dumped, optimizer=types.SimpleNamespace(method="external/slsqp", parallel=True, speculative=False, split_evaluations=False, options=None, max_iterations=None, max_functions=None, tolerance=None, output_dir=None)), callback)
         x0 = np.array([0.125, 0.75])
         from ropt.exceptions import OptimizationAborted as _Aborted
 
@@ -489,7 +489,7 @@ def scn_conversation(T, case):
 
     x0 = np.array([0.125, 0.75])
     try:
-        opt = cls(types.SimpleNamespace(model_dump=lambda round_trip=False: dumped, optimizer=types.SimpleNamespace(method="external/scipy/slsqp")), parent_callback)
+        opt = cls(types.SimpleNamespace(model_dump=lambda round_trip=False: dumped, optimizer=types.SimpleNamespace(method="external/scipy/slsqp", parallel=True, speculative=False, split_evaluations=False, options=None, max_iterations=None, max_functions=None, tolerance=None, output_dir=None)), parent_callback)
         try:
             opt.start(x0)
             ended = "returned"
@@ -573,7 +573,9 @@ def scn_props(T, case):
         real.PluginManager = PM
         cls = real.ExternalOptimizer
     try:
-        cfg = types.SimpleNamespace(optimizer=types.SimpleNamespace(method="external/scipy/slsqp"))
+        # (the configured `parallel` flag says what the user allows, not what the wrapped method does: the wrapper mirrors the latter)
+        cfg = types.SimpleNamespace(optimizer=types.SimpleNamespace(method="external/scipy/slsqp", parallel=not case["parallel"], speculative=False, split_evaluations=False,
+                                                                   options=None, max_iterations=None, max_functions=None, tolerance=None, output_dir=None))
         ext = cls(cfg, lambda *a, **k: None)
     finally:
         if restore:
@@ -740,7 +742,8 @@ def scn_comm(T, case):
 
     log, opened, closed = [], [], []
     script = list(case["script"])
-    state = {"next_fd": 10, "ready": None, "inbox": ""}
+    # (descriptors numbered beyond 1023, as in a process that has many files open: select() cannot watch those - library contract)
+    state = {"next_fd": 1030, "ready": None, "inbox": ""}
 
     class Path_:
         def __init__(self, name):
@@ -783,13 +786,21 @@ def scn_comm(T, case):
         def __exit__(self, *a):
             closed.append("dup")
 
+    class SelectBased(Selector):
+        """selectors.SelectSelector by library contract: select() takes descriptors below FD_SETSIZE only"""
+
+        def register(self, fd, events):
+            if fd >= 1024:
+                raise ValueError("filedescriptor out of range in select()")
+            Selector.register(self, fd, events)
+
     sel = Selector()
     fake_os = OsStub(
         O_RDONLY=real_os.O_RDONLY, O_WRONLY=real_os.O_WRONLY, O_NONBLOCK=real_os.O_NONBLOCK,
         open=os_open, close=lambda fd: closed.append(fd), mkfifo=lambda p, *a: log.append(("mkfifo", p.name)),
         write=lambda fd, data: log.append(("write", fd, data)) or len(data), dup=lambda fd: ("dup", fd),
         fdopen=lambda fd, *a, **k: File(state["inbox"]), kill=lambda *a: None)
-    fake_sel = types.SimpleNamespace(DefaultSelector=lambda: sel, EVENT_READ=real_selectors.EVENT_READ, EVENT_WRITE=real_selectors.EVENT_WRITE, BaseSelector=object)
+    fake_sel = types.SimpleNamespace(DefaultSelector=lambda: sel, SelectSelector=SelectBased, EVENT_READ=real_selectors.EVENT_READ, EVENT_WRITE=real_selectors.EVENT_WRITE, BaseSelector=object)
     stubs = {(MX, "os"): fake_os, (MX, "selectors"): fake_sel}
     if T.symbolic:
         sh = T.shadow([MX], stubs)
@@ -895,7 +906,7 @@ def scn_child_run(T, case):
             log.append(("get_plugin", kind, method))
             return types.SimpleNamespace(create=lambda config, callback: Wrapped(config, callback))
 
-    validated = types.SimpleNamespace(optimizer=types.SimpleNamespace(method="external/scipy/slsqp"), variables=types.SimpleNamespace(initial_values=np.zeros(3)))
+    validated = types.SimpleNamespace(optimizer=types.SimpleNamespace(method="external/scipy/slsqp", parallel=True, speculative=False, split_evaluations=False, options=None, max_iterations=None, max_functions=None, tolerance=None, output_dir=None), variables=types.SimpleNamespace(initial_values=np.zeros(3)))
     stubs = {(MX, "_JSONPipeCommunicator"): Comm, (MX, "PluginManager"): PM, (MX, "os"): OsStub(kill=lambda pid, sig: None),
              (MX, "EnOptConfig"): types.SimpleNamespace(model_validate=lambda d: log.append(("validate", d)) or validated)}
     restore = None
